@@ -5,19 +5,24 @@ import (
 
 	"github.com/lindb/roaring"
 
+	"github.com/lindb/lindb/aggregation"
+	"github.com/lindb/lindb/aggregation/function"
 	"github.com/lindb/lindb/constants"
 	"github.com/lindb/lindb/flow"
 	"github.com/lindb/lindb/kv"
 	"github.com/lindb/lindb/kv/table"
 	"github.com/lindb/lindb/kv/version"
+	"github.com/lindb/lindb/pkg/timeutil"
+	"github.com/lindb/lindb/series/field"
 	"github.com/lindb/lindb/series/tag"
+	"github.com/lindb/lindb/sql/stmt"
 )
 
 // C10 (group-by returns for each selected series exactly its values of the grouping keys): the real
 // forwardIndex (put, prepareFlush, flush through the real forward index flusher, GetGroupingContext
 // with memory and file scanners) and the real flow.GroupingContext (ScanTagValueIDs) over four
 // series in two containers. Every series has or lacks each of two tag keys (choice), its tag value
-// ids are symbolic, it is written before or after a flush (choice: flushed file / immutable part
+// ids are a symbolic base plus small offsets (two series may share a value), it is written before or after a flush (choice: flushed file / immutable part
 // being flushed / mutable part), the query selects a subset of the series and groups by key 1,
 // key 2, (1,2) or (2,1). The series that remain are exactly the selected series that have every
 // grouping key (not-found when there are none), and for every container and grouping key the tag
@@ -96,6 +101,12 @@ func (fl *verifGrpFlusher) Release() {}
 
 var verifGrpSeries = []uint32{1, 7, 65545, 65548}
 
+func verifGrpSpec() aggregation.AggregatorSpec {
+	spec := aggregation.NewAggregatorSpec("f", field.SumField)
+	spec.AddFunctionType(function.Sum)
+	return spec
+}
+
 func verifC10Grouping() {
 	n := len(verifGrpSeries)
 	keys := []uint32{1, 2}
@@ -119,6 +130,7 @@ func verifC10Grouping() {
 			has[i][k] = false
 		}
 	}
+	vbase := uint32(verifRange("tagValueIDBase", 0, 1000000))
 	placement := verifChoose("placement", 4)
 	for i := 0; i < n; i++ {
 		switch placement {
@@ -132,7 +144,9 @@ func verifC10Grouping() {
 			when[i] = (i + 1) % 2 // file and immutable part
 		}
 		for k := 0; k < 2; k++ {
-			val[i][k] = verifNondetUint32("tagValueID")
+			// one symbolic base plus a small offset per series and key: two series may share a tag
+			// value (they then share a group), and equality of two ids never needs the solver
+			val[i][k] = vbase + uint32([]int{1, 2, 1, 3}[i]+10*k)
 		}
 	}
 	fam := &verifGrpFamily{}
@@ -169,7 +183,13 @@ func verifC10Grouping() {
 		tagKeyIDs = append(tagKeyIDs, tag.KeyID(keys[k]))
 	}
 	ctx := &flow.ShardExecuteContext{
-		StorageExecuteCtx:       &flow.StorageExecuteContext{GroupByTagKeyIDs: tagKeyIDs},
+		StorageExecuteCtx: &flow.StorageExecuteContext{
+			GroupByTagKeyIDs:    tagKeyIDs,
+			GroupingTagValueIDs: make([]*roaring.Bitmap, len(tagKeyIDs)),
+			Query: &stmt.Query{Interval: timeutil.Interval(10000), StorageInterval: timeutil.Interval(10000), IntervalRatio: 1,
+				TimeRange: timeutil.TimeRange{Start: 1700000000000, End: 1700000050000}},
+			DownSamplingSpecs: aggregation.AggregatorSpecs{verifGrpSpec()},
+		},
 		SeriesIDsAfterFiltering: sel,
 	}
 	err := fi.GetGroupingContext(ctx)
@@ -203,6 +223,30 @@ func verifC10Grouping() {
 		container := want.GetContainer(hk)
 		if container == nil {
 			continue
+		}
+		// the groups built for the data load of this container: every remaining series is put into the
+		// group whose key is the tuple of its own tag value ids
+		dlc := &flow.DataLoadContext{ShardExecuteCtx: ctx, SeriesIDHighKey: hk, LowSeriesIDsContainer: container, IsGrouping: true}
+		dlc.Grouping()
+		ctx.GroupingContext.BuildGroup(dlc)
+		for i := 0; i < n; i++ {
+			if uint16(verifGrpSeries[i]>>16) != hk || !want.Contains(verifGrpSeries[i]) {
+				continue
+			}
+			idx := uint16(verifGrpSeries[i]) - dlc.MinSeriesID
+			verifAssert(len(dlc.GroupingSeriesAgg) > 0 && int(dlc.GroupingSeriesAggRefs[idx]) < len(dlc.GroupingSeriesAgg), "every remaining series is put into a group")
+			if len(dlc.GroupingSeriesAgg) == 0 || int(dlc.GroupingSeriesAggRefs[idx]) >= len(dlc.GroupingSeriesAgg) {
+				continue
+			}
+			key := []byte(dlc.GroupingSeriesAgg[dlc.GroupingSeriesAggRefs[idx]].Key)
+			verifAssert(len(key) == 4*len(groupBy), "a group's key holds one tag value id per grouping key")
+			if len(key) != 4*len(groupBy) {
+				continue
+			}
+			for gi, k := range groupBy {
+				v := uint32(key[4*gi]) | uint32(key[4*gi+1])<<8 | uint32(key[4*gi+2])<<16 | uint32(key[4*gi+3])<<24
+				verifAssert(v == val[i][k], "a series is grouped under its own tag value ids")
+			}
 		}
 		got := ctx.GroupingContext.ScanTagValueIDs(hk, container)
 		verifAssert(len(got) == len(groupBy), "one set of tag value ids per grouping key")
